@@ -78,7 +78,7 @@ def run(name, pid, tier="quick", worktree=False):
         try:
             r = sh(f"git apply {d / 'patch.diff'}", wt)
             assert r.returncode == 0, r.stderr
-            c = sh(f"VERIF_REPO={wt} ./check {pid} --tier {tier}", "/verif", 7200)
+            c = sh(f"VERIF_EVIDENCE=/verif/.work/seeded_evidence VERIF_REPO={wt} ./check {pid} --tier {tier}", "/verif", 7200)
         finally:
             sh(f"git worktree remove --force {wt}", "/repo")
     else:
@@ -86,7 +86,7 @@ def run(name, pid, tier="quick", worktree=False):
         r = sh(f"git apply {d / 'patch.diff'}", "/repo")
         assert r.returncode == 0, r.stderr
         try:
-            c = sh(f"./check {pid} --tier {tier}", "/verif", 7200)
+            c = sh(f"VERIF_EVIDENCE=/verif/.work/seeded_evidence ./check {pid} --tier {tier}", "/verif", 7200)
         finally:
             sh("git checkout -- .", "/repo")
     viol = re.findall(r"VIOLATION property=\S+ replay=\S+\s+\[([^\]]*)\]", c.stdout)
